@@ -268,7 +268,9 @@ def Token.unescapeToBytes (t : Token) : Except TokErr Token :=
 
 /-! ## Python `int(text, 10)` on the characters the model admits -/
 
-def isPySpace (c : Nat) : Bool := c = 32 ∨ (9 ≤ c ∧ c ≤ 13) ∨ (28 ≤ c ∧ c ≤ 31) ∨ c = 0x85 ∨ c = 0xA0
+/-- the characters `int()` strips: U+001C..U+001F are `str.isspace()` but are *not* stripped by `int` (checked on the
+implementation: `int("1\x1c")` is a ValueError) -/
+def isPySpace (c : Nat) : Bool := c = 32 ∨ (9 ≤ c ∧ c ≤ 13) ∨ c = 0x85 ∨ c = 0xA0
 
 def digitsVal : List Nat → Nat → Nat
   | [], acc => acc
